@@ -403,6 +403,85 @@ theorem substL_WT (test : Expr → Bool) (other : Expr) (ho : WT other) : ∀ (e
       exact ⟨substE_WT test other ho e e' he hw.1, substL_WT test other ho es es' hes hw.2⟩
 end
 
+mutual
+theorem substV_WT (nm : String) (other : Expr) (ho : WT other) : ∀ (e r : Expr), substV nm other e = .ok r → WT e → WT r
+  | .lit t k v, r, h, hw => by simp only [substV, Except.ok.injEq] at h; subst h; exact hw
+  | .this t, r, h, hw => by simp only [substV, Except.ok.injEq] at h; subst h; exact hw
+  | .var t x, r, h, hw => by simp only [substV, Except.ok.injEq] at h; subst h; split <;> assumption
+  | .set t vs, r, h, hw => by
+      simp only [substV] at h
+      obtain ⟨vs', hvs, h⟩ := bind_ok h
+      split at h
+      · cases h; exact hw
+      · obtain ⟨vs'', hc, h⟩ := bind_ok h
+        cases h
+        exact ⟨hw.1, castList_WT hc (substVL_WT nm other ho vs vs' hvs (WT_set_inv hw))⟩
+  | .range t lo hi a b, r, h, hw => by
+      simp only [substV] at h
+      obtain ⟨lo', hlo, h⟩ := bind_ok h
+      obtain ⟨hi', hhi, h⟩ := bind_ok h
+      split at h
+      · cases h; exact hw
+      · obtain ⟨lo'', hcl, h⟩ := bind_ok h
+        obtain ⟨hi'', hch, h⟩ := bind_ok h
+        cases h
+        have w := WT_range_inv hw
+        exact ⟨hw.1, castE_WT hcl (substV_WT nm other ho lo lo' hlo w.1), castE_WT hch (substV_WT nm other ho hi hi' hhi w.2),
+          (castE_sub hcl).1, (castE_sub hch).1⟩
+  | .quant t q x d b, r, h, hw => by
+      simp only [substV] at h
+      split at h
+      · cases h; exact hw
+      obtain ⟨d', hd, h⟩ := bind_ok h
+      obtain ⟨b', hb, h⟩ := bind_ok h
+      split at h
+      · cases h; exact hw
+      · have w := WT_quant_inv hw
+        exact mkQuant_WT h (substV_WT nm other ho d d' hd w.1) (substV_WT nm other ho b b' hb w.2)
+  | .un t op a, r, h, hw => by
+      simp only [substV] at h
+      obtain ⟨a', ha, h⟩ := bind_ok h
+      split at h
+      · cases h; exact hw
+      · exact mkUn_WT h (substV_WT nm other ho a a' ha (WT_un_inv hw))
+  | .bin t op a b, r, h, hw => by
+      simp only [substV] at h
+      obtain ⟨a', ha, h⟩ := bind_ok h
+      obtain ⟨b', hb, h⟩ := bind_ok h
+      split at h
+      · cases h; exact hw
+      · have w := WT_bin_inv hw
+        exact mkBin_WT h (substV_WT nm other ho a a' ha w.1) (substV_WT nm other ho b b' hb w.2)
+  | .call t f as, r, h, hw => by
+      simp only [substV] at h
+      obtain ⟨as', has, h⟩ := bind_ok h
+      split at h
+      · cases h; exact hw
+      · exact mkCall_WT h (substVL_WT nm other ho as as' has (WT_call_inv hw))
+  | .field t m n, r, h, hw => by
+      simp only [substV] at h
+      obtain ⟨m', hm, h⟩ := bind_ok h
+      split at h
+      · cases h; exact hw
+      · exact mkFieldT_WT h (substV_WT nm other ho m m' hm hw.2.2.1) ⟨hw.1, hw.2.1⟩
+  | .index t a i, r, h, hw => by
+      simp only [substV] at h
+      obtain ⟨a', ha, h⟩ := bind_ok h
+      obtain ⟨i', hi, h⟩ := bind_ok h
+      split at h
+      · cases h; exact hw
+      · exact mkIndexT_WT h (substV_WT nm other ho a a' ha hw.2.2.1) (substV_WT nm other ho i i' hi hw.2.2.2.1) ⟨hw.1, hw.2.1⟩
+theorem substVL_WT (nm : String) (other : Expr) (ho : WT other) : ∀ (es rs : ExprList), substVL nm other es = .ok rs → WTList es → WTList rs
+  | .nil, rs, h, _ => by simp only [substVL, Except.ok.injEq] at h; subst h; trivial
+  | .cons e es, rs, h, hw => by
+      simp only [substVL] at h
+      obtain ⟨e', he, h⟩ := bind_ok h
+      obtain ⟨es', hes, h⟩ := bind_ok h
+      cases h
+      exact ⟨substV_WT nm other ho e e' he hw.1, substVL_WT nm other ho es es' hes hw.2⟩
+end
+
+
 theorem var_item_WT (a : String) : WT (.var T.ITEM a) := ⟨by decide, sub_refl _⟩
 theorem this_WT : WT (.this T.MESSAGE) := rfl
 
@@ -410,7 +489,7 @@ theorem this_WT : WT (.this T.MESSAGE) := rfl
 theorem replaceThisWithVarE_WT (e r : Expr) (a : String) (h : replaceThisWithVarE e a = .ok r) (hw : WT e) : WT r :=
   substE_WT _ _ (var_item_WT a) e r h hw
 theorem replaceVarWithThisE_WT (e r : Expr) (a : String) (h : replaceVarWithThisE e a = .ok r) (hw : WT e) : WT r :=
-  substE_WT _ _ this_WT e r h hw
+  substV_WT _ _ this_WT e r h hw
 
 theorem replaceThisWithVarP_WT (p q : Pred) (a : String) (h : replaceThisWithVarP p a = .ok q) (hw : WTPred p) : WTPred q := by
   cases p with
@@ -430,7 +509,7 @@ theorem replaceVarWithThisP_WT (p q : Pred) (a : String) (h : replaceVarWithThis
     obtain ⟨e', he, h⟩ := bind_ok h
     split at h
     · cases h; exact hw
-    · exact mkPred_WT h (substE_WT _ _ this_WT e e' he hw.1)
+    · exact mkPred_WT h (substV_WT _ _ this_WT e e' he hw.1)
   | vtrue => simp only [replaceVarWithThisP, Pred.replaceVar] at h; cases h; trivial
   | vfalse => simp only [replaceVarWithThisP, Pred.replaceVar] at h; cases h; trivial
 
